@@ -225,7 +225,7 @@ impl Node {
 //@ as: fn child_makes_stale(&self, vx_p0: i32, vx_p1: NodeRef) -> (r: bool)
 //@ cells: recomputed_at
 //@ tracing: yes
-//@ rule R8 re: `(\w+(?:\.\w+\(\))*)\.get\(\)\s*(>=|<=|==|!=|>|<)\s*self\.recomputed_at\b` => `\1.get().0 \2 self.recomputed_at.0` x1
+//@ stamps: recomputed_at, changed_at, last_run
 //@ props: C05 C06
 //@ contract:
 //@|     requires vx_p1.wf(),
@@ -252,7 +252,7 @@ impl Node {
 //@ as: fn is_stale(&self) -> (r: bool)
 //@ cells: recomputed_at, force_stale
 //@ cells@e: force_stale
-//@ rule R8 re: `set_at\s*(>=|<=|==|!=|>|<)\s*recomputed_at\b` => `set_at.0 \1 recomputed_at.0` x1
+//@ stamps: set_at, recomputed_at, changed_at, last_run
 //@ props: C05 C06
 //@ contract:
 //@|     ensures r == self.stale(), // [stale-iff-never-run-or-an-input-or-the-variable-changed-since-or-forced]
